@@ -16,7 +16,7 @@ from ..harness import rule
 from ..index import AnalysisError, text
 from ..models import BASE_STUBS, LEN_MAX, frame_stubs, mask_stub, mk_websocket, recv_config, set_cont_state
 from ..rulekit import CLOSED_EXC, TIMEOUT_EXC, exc_is, isym, new_dict, new_list, new_obj, path_text
-from ..values import C, FALSE, INF, NONE, TRUE, App, HObj, Ref, Sym, Tup, concat
+from ..values import C, FALSE, INF, NONE, TRUE, App, Ext, HObj, Ref, Sym, Tup, concat
 
 
 @rule("R-C03-1", min_instances=1, title="recv_strict keeps every byte it already has when the transport raises")
@@ -164,7 +164,13 @@ def r4(ctx):
         run.effect("recv_line", args, node=node)
         return Sym(f"line{k}", "bytes")
 
-    Ix = Interp(idx, Config(stubs={"_socket:recv_line": rl, "_logging:trace": lambda *a: NONE}, loop_unroll=3))
+    def direct_read(Ix, run, args, kwargs, node):
+        # any read that is not a line read is already the answer: record it and stop following this path
+        from ..absint import CutoffSig
+        run.effect("_socket:recv", args, node=node)
+        raise CutoffSig("a transport read besides recv_line")
+
+    Ix = Interp(idx, Config(stubs={"_socket:recv_line": rl, "_socket:recv": direct_read, "_logging:trace": lambda *a: NONE}, loop_unroll=3))
     outs_h = ctx.count_paths(Ix.explore(lambda run: Ix.call(run, Ix.make_fn(run, q), [Sym("sock", "obj")], {}, None)))
     lines = sum(1 for o in outs_h for e in o.effects if e.name == "recv_line")
     other = sorted({e.name for o in outs_h for e in o.effects if e.name.startswith(("sock.", "_socket:recv")) or e.name.endswith((".recv", ".read", ".recv_into"))})
@@ -260,13 +266,10 @@ def r6(ctx):
                 continue
             n += 1
             ws = next(c for c in o.run.heap.values() if getattr(c, "label", "") == "ws")
-            cf = o.run.cell(ws.fields["cont_frame"]).fields
-            cd = cf.get("cont_data")
-            cd = list(o.run.cell(cd).items) if isinstance(cd, Ref) else cd
-            want_cd = NONE if state == "idle" else [C(1), Sym("acc", "bytes")]
-            want_rf = NONE if state == "idle" else C(1)
+            from ..models import reasm_after
+            same = reasm_after(o) == o.run.memo.get("@reasm_before")   # by value, whatever the reassembler's fields are
             wrote = [e for e in o.effects if e.name in ("pong", "send_close")]
-            if cd != want_cd or cf.get("recving_frames") != want_rf or wrote or ws.fields.get("connected") != TRUE:
+            if not same or wrote or ws.fields.get("connected") != TRUE:
                 bad = bad or o
         if n == 0:
             raise AnalysisError("no timeout path")
@@ -324,20 +327,41 @@ def r8(ctx):
         st2["selectors.DefaultSelector"] = lambda I, run, a, k, n: new_obj(run, None, "sel")
         st2["sel.register"] = lambda I, run, a, k, n: NONE
         st2["sel.close"] = lambda I, run, a, k, n: NONE
-        st2["sel.select"] = lambda I, run, a, k, n: (run.effect("sel.select", a, node=n), new_list(run, [Sym("ready", "obj")]))[1]
+        def sel_select(I, run, a, k, n):
+            run.effect("sel.select", a, node=n)
+            if run.choose(2, I.locof(n), "wait for readability: readable / the socket's timeout elapses first") == 1:
+                return new_list(run, [])
+            return new_list(run, [Sym("ready", "obj")])
+        st2["sel.select"] = sel_select
         Iw = Interp(idx, Config(stubs=st2, may_raise=mr2))
         outs_w = ctx.count_paths(Iw.explore(lambda run: Iw.call(run, Iw.make_fn(run, q), [Sym("sock", "obj"), C(10)], {}, None)))
         nw = 0
         badw = None
+        badt = None
+        nt = 0
         for o in outs_w:
             if not any("@raised" in e.kwargs for e in o.effects):
                 continue
-            nw += 1
             names = [e.name for e in o.effects]
+            if any(d.text.startswith("wait for readability") and d.choice == 1 for d in o.decisions):
+                # nothing became readable within the socket's timeout: that is a receive timeout (the connection stays usable),
+                # not the end of the stream
+                nt += 1
+                if not (o.kind == "raise" and exc_is(Iw, o, TIMEOUT_EXC)):
+                    badt = badt or o
+                continue
+            nw += 1
             ok = o.kind in ("return", "raise") and names.count("sock.recv") == 2 and "sel.select" in names and \
                 not (o.kind == "raise" and (o.exc_class or "").split(".")[-1] in ("SSLWantReadError", "BlockingIOError"))
             if not ok:
                 badw = badw or o
+        if nt == 0 and badw is None:
+            raise AnalysisError("want-read case: the wait never times out in the exploration")
+        if nt > 0:
+            ctx.ob(f"{q}:blocking-transport:{exc.split('.')[-1]}:wait-timing-out-is-a-timeout", badt is None, f"{nt} paths: reported as WebSocketTimeoutException" if badt is None else
+                   f"after {exc.split('.')[-1]} the wait for readability runs into the socket's timeout and recv() ends as {badt.kind} {badt.exc_class or badt.value!r}: a receive timeout is "
+                   f"reported as a lost connection, WebSocket._recv then closes the transport -- the connection is not usable after a timeout at this byte position",
+                   (badt.raise_loc if badt else "") or idx.loc(idx.func(q).node), {"path": path_text(badt)} if badt else None)
         if nw == 0:
             raise AnalysisError("want-read case not explored")
         nm = exc.split(".")[-1]
@@ -413,3 +437,55 @@ def r9(ctx):
            f"when the response is split across segments the exception carries a truncated resp_body (what the caller observes depends on segmentation)", loc,
            {"path": path_text(bad[1])} if bad else None)
 
+
+
+@rule("R-C03-10", min_instances=3, title="every way of receiving resumes after a timeout: iteration (`for msg in ws`, next(ws), ws.next()) asks recv() again on the next attempt -- a timeout does not end the message stream of a connection that is still open")
+def r10(ctx):
+    """recv() is the boundary: first call raises a receive timeout, later calls return messages.  The iteration protocol is
+    the repo's own (__iter__ / __next__ / next)."""
+    from ..appmodel import raise_exc
+    idx = ctx.index
+    W = "_core:WebSocket"
+    loc = idx.loc(idx.func(f"{W}.__iter__").node)
+
+    def recv(I, run, args, kwargs, node):
+        k = len([e for e in run.effects if e.name == "recv"])
+        run.effect("recv", (), node=node)
+        if k == 0:
+            raise_exc(I, run, TIMEOUT_EXC, node, "timeout")
+        return Sym(f"msg{k}", "str")
+
+    stubs = dict(BASE_STUBS)
+    stubs[f"{W}.recv"] = recv
+    I = Interp(idx, Config(stubs=stubs, loop_unroll=2))
+
+    def first_of(run, ws, how):
+        if how == "for-loop":
+            it = I.call(run, Ext("builtins.iter"), [ws], {}, None)
+            return I.call(run, Ext("builtins.next"), [it], {}, None)
+        if how == "next(ws)":
+            return I.call(run, I.getattr(run, ws, "__next__", None), [], {}, None)
+        return I.call(run, I.getattr(run, ws, "next", None), [], {}, None)
+
+    for how in ("for-loop", "next(ws)", "ws.next()"):
+        def body(run, how=how):
+            ws = mk_websocket(I, run)
+            try:
+                first_of(run, ws, how)
+                run.effect("--first attempt returned")
+            except RaiseSig as r:
+                run.effect("--first attempt raised", (C(I.exc_class_name(run, r.exc)),))
+            return first_of(run, ws, how)   # a new loop / a new next() on the same, still open connection
+        outs = ctx.count_paths(I.explore(body))
+        bad = None
+        for o in outs:
+            first = [e for e in o.effects if e.name.startswith("--first attempt")]
+            ok1 = bool(first) and first[0].name.endswith("raised") and first[0].args == (C(TIMEOUT_EXC),)
+            ok2 = o.kind == "return" and o.value == Sym("msg1", "str") and len([e for e in o.effects if e.name == "recv"]) == 2
+            if not (ok1 and ok2):
+                bad = bad or (first, o)
+        if not outs:
+            raise AnalysisError(f"{how}: no path")
+        ctx.ob(f"{W}:iteration:{how}:resumes-after-timeout", bad is None, "the timeout is raised to the caller and the next attempt receives the next message" if bad is None else
+               f"{how}: after a receive timeout the next attempt ends as {bad[1].kind} {bad[1].exc_class or bad[1].value!r} with {len([e for e in bad[1].effects if e.name == 'recv'])} recv() "
+               f"call(s) in total: the message stream of an open connection ends (or is not resumed) because of one timeout", loc, {"path": path_text(bad[1])} if bad else None)
